@@ -1303,30 +1303,46 @@ func (i *interpreter) exactParse(fn string, s symStr, k types.BasicKind, base, b
 		parseTabs[key] = tab
 	}
 	parseTabMu.Unlock()
-	okT = c.False
+	// verdict and value as a decision tree over the symbolic bytes in order (a trie of the accepted
+	// instantiations): far friendlier to the solver than one flat disjunction of conjunctions
+	var zero *sym.Term
 	if kindIsFloat(k) {
-		valT = c.F64Lit(0)
+		zero = c.F64Lit(0)
 	} else {
-		valT = c.BVLit(0, kindWidth(k))
+		zero = c.BVLit(0, kindWidth(k))
 	}
-	for _, e := range tab {
-		conds := make([]*sym.Term, len(syms))
-		for q, t := range syms {
-			conds[q] = c.Eq(t, c.BVLit(uint64(e.vals[q]), 8))
-		}
-		t := c.And(conds...)
-		if t == c.False {
-			continue
-		}
-		okT = c.Or(okT, t)
-		var lit *sym.Term
+	lit := func(bits uint64) *sym.Term {
 		if kindIsFloat(k) {
-			lit = c.F64Lit(math.Float64frombits(e.bits))
-		} else {
-			lit = c.BVLit(e.bits, kindWidth(k))
+			return c.F64Lit(math.Float64frombits(bits))
 		}
-		valT = c.Ite(t, lit, valT)
+		return c.BVLit(bits, kindWidth(k))
 	}
+	var build func(entries []parseEntry, q int) (*sym.Term, *sym.Term)
+	build = func(entries []parseEntry, q int) (*sym.Term, *sym.Term) {
+		if len(entries) == 0 {
+			return c.False, zero
+		}
+		if q == len(syms) {
+			return c.True, lit(entries[0].bits)
+		}
+		ok, val := c.False, zero
+		// entries are generated in lexicographic order of vals: group by vals[q]
+		for lo := 0; lo < len(entries); {
+			hi := lo
+			for hi < len(entries) && entries[hi].vals[q] == entries[lo].vals[q] {
+				hi++
+			}
+			eq := c.Eq(syms[q], c.BVLit(uint64(entries[lo].vals[q]), 8))
+			if eq != c.False {
+				subOK, subVal := build(entries[lo:hi], q+1)
+				ok = c.Or(ok, c.And(eq, subOK))
+				val = c.Ite(eq, subVal, val)
+			}
+			lo = hi
+		}
+		return ok, val
+	}
+	okT, valT = build(tab, 0)
 	return okT, valT, true
 }
 
